@@ -46,31 +46,39 @@ class PipeOps(FullOps):
     def __init__(self):
         super().__init__()
         self.loop_orders: list = []
+        self.loop_ids: list = []
+        self._lid = 0
         self.seq = 0
 
     # ------------------------------------------------------------------ bookkeeping
     def pev(self, kind, node, **data):
         """Pipeline event, numbered in execution order."""
         self.seq += 1
-        self.ev(kind, node, seq=self.seq, **data)
+        self.ev(kind, node, seq=self.seq, loops=list(self.loop_ids), **data)
 
     def note_value_use(self, t, node):
         return None
 
     def loop_enter(self, lid, st, info, env):
         self.loop_orders.append(info.get("order"))
+        self._lid += 1
+        self.loop_ids.append(self._lid)
 
     def loop_exit(self, env, lid, info, st):
         if self.loop_orders:
             self.loop_orders.pop()
+            self.loop_ids.pop()
         return super().loop_exit(env, lid, info, st)
 
     def comp_enter(self, info):
         self.loop_orders.append(info.get("order"))
+        self._lid += 1
+        self.loop_ids.append(self._lid)
 
     def comp_exit(self, info):
         if self.loop_orders:
             self.loop_orders.pop()
+            self.loop_ids.pop()
 
     def current_loop_order(self, env):
         for o in reversed(self.loop_orders):
